@@ -10,21 +10,19 @@ import (
 
 func main() {
 	y := `module k { namespace "urn:k"; prefix k; revision 0;
-	list l { when "v>10"; key k; leaf k {type string;} leaf v {type int32;} leaf o {type string;} }
-	leaf sw {type boolean;} choice ch { case a { leaf x { when "sw='true'"; type string; } } case b { leaf y {type string;} } }
-	container c { when "z>10"; leaf z { type int32; } leaf q { type string; } }
+	container y { when "z>10"; leaf z {type int32;} leaf q {type string;} }
+	grouping gr { leaf ga {type string;} container gc { leaf gx {type string;} } } container u { leaf sw {type boolean;} uses gr { when "sw='true'"; } }
+	leaf late { when "flag='true'"; type string; } leaf flag {type boolean;}
 	}`
 	m, err := parser.LoadModuleFromString(nil, y)
 	if err != nil {
 		panic(err)
 	}
-	data := map[string]interface{}{"sw": false, "y": "Y", "l": []map[string]interface{}{{"k": "a", "v": 11, "o": "x"}, {"k": "b", "v": 1, "o": "y"}}, "c": map[string]interface{}{"z": 5, "q": "Q"}}
-	b := node.NewBrowser(m, nodeutil.ReflectChild(data))
-	for _, doc := range []string{`{"l":[{"k":"b","o":"changed"}]}`, `{"x":"X"}`, `{"c":{"q":"changed"}}`, `{"l":[{"k":"b","v":50,"o":"changed2"}]}`} {
+	for _, doc := range []string{`{"y":{"z":99,"q":"hi"}}`, `{"y":{"z":1,"q":"hi"}}`, `{"u":{"ga":"1","gc":{"gx":"2"}}}`, `{"u":{"sw":true,"ga":"1","gc":{"gx":"2"}}}`, `{"late":"L","flag":true}`} {
+		data := map[string]interface{}{}
+		b := node.NewBrowser(m, nodeutil.ReflectChild(data))
 		src, _ := nodeutil.ReadJSON(doc)
 		err := b.Root().UpsertFrom(src)
 		fmt.Println(doc, "->", err, data)
 	}
-	s, err := b.Root().Find("l=b")
-	fmt.Println(s, err)
 }
